@@ -123,3 +123,13 @@ package derive
 
 //@ func (f *Field) Private() (r bool)
 //@ abstract: pred
+
+// ---------------------------------------------------------------------------
+// external (trusted) contracts for standard-library functions called by
+// emitted code (Layer O)
+// ---------------------------------------------------------------------------
+
+// bytes.Equal looks at length and bytes only; a nil and an empty slice are equal.
+//@ extern func bytes.Equal(a []byte, b []byte) (r bool)
+//@ pure
+//@ ensures r <==> (len(a) == len(b) && forall j int :: 0 <= j && j < len(a) ==> a[j] == b[j])
